@@ -45,6 +45,9 @@ var c06Programs = []string{
 	`$tv($$).o.z`,
 	`$rv(a).match`,
 	`$cv(a)`,
+	`($f := $join; $f([a, "q"], "-"))`, // a process-wide built-in called under another name
+	`($g := $join; $g([a, "r"], "+"))`, //
+	`$filter([a], $join)`,              // fails inside $join: the error names the function object
 }
 
 const c06FnFirst = 16
@@ -203,7 +206,11 @@ func c06Body(sc *c06Scenario, ti int, exprs map[int]*jsonata.Expr, obs [][]c06Ob
 				if !sc.shared {
 					key = op.prog + 1000*ti
 				}
-				o.outcome = impl.EvalExpr(exprs[key], doc).Short()
+				r := impl.EvalExpr(exprs[key], doc)
+				o.outcome = r.Short()
+				if r.Kind == impl.Error {
+					o.outcome += " " + r.Err.Error() // "exactly the outcome": the function name and argument position an error carries
+				}
 			case 'C':
 				e, err := jsonata.Compile(c06RegPrograms[op.prog])
 				o.compEnd = sched.Now()
